@@ -531,7 +531,7 @@ package sftp
 //@   ensures !ghost.rxErr && err == nil ==> len(payload) + 1 == int(ghost.rxLen)
 // (a frame is refused as long only above the limit and as short only when empty; every other frame is delivered whole)
 //@   assert before call (*allocator).GetPage#1: arg1 == orderID
-//@   property C08, C07, C18, C15, C02
+//@   property C08, C07, C18, C15, C02, C01
 //@   results typ, payload, err
 //@   alloc-bound maxMsgLength + 64
 //@   requires r != nil
@@ -1019,7 +1019,7 @@ package sftp
 //@ func (*Server).sftpServerWorker
 //@   assert before call (*packetManager).readyPacket#1: arg1.orderid == pkt.orderid && arg1.responsePacket != nil && arg1.responsePacket.id() == pkt.requestPacket.id()
 //@   assert before call (*packetManager).readyPacket#1: typeis(arg1.responsePacket, *sshFxpStatusPacket) && arg1.responsePacket.(*sshFxpStatusPacket).Code == sshFxPermissionDenied
-//@   property C07, C02, C09
+//@   property C07, C02, C09, C16
 //@   requires serverOK(svr)
 //@   channel global:type:sftp.orderedRequest invariant m.requestPacket != nil && reqType(m.requestPacket) && extOK(m.requestPacket) && attrsOK(m.requestPacket)
 //@   loop 1 invariant serverOK(svr)
@@ -1058,7 +1058,7 @@ package sftp
 //@   loop 1 ghost rxOrder
 //@   update before call (*conn).recvPacket#1: ghost.rxOrder = arg1
 //@   assert before send pktChan#1: arg1.orderid == ghost.rxOrder
-//@   property C07, C02, C11, C14, C18, C15
+//@   property C07, C02, C11, C14, C18, C15, C01
 //@   update before call (*packetManager).workerChan#1: ghost.workersJoined = false
 //@   update before call (*packetManager).workerChan#1: ghost.sweeping = false
 //@   update after call (*sync.WaitGroup).Wait#1: ghost.workersJoined = true
@@ -1085,7 +1085,7 @@ package sftp
 //@   update before call (*conn).recvPacket#1: ghost.rxOrder = arg1
 //@   assert before send pktChan#1: arg1.orderid == ghost.rxOrder
 // (C18/C15: the page that holds a received packet is registered under the order id the packet is then given)
-//@   property C07, C02, C18, C15
+//@   property C07, C02, C18, C15, C01
 //@   loop 1 ghost rxOK, fwd
 //@   loop 1 invariant ghost.rxOK - ghost.fwd == old(ghost.rxOK) - old(ghost.fwd)
 //@   update after call makePacket#1: ghost.rxOK = ite(ret1 == nil || isErr(ret1, errUnknownExtendedPacket), ghost.rxOK + 1, ghost.rxOK)
@@ -1315,7 +1315,7 @@ package sftp
 //@   modifies nothing
 
 //@ func (*RequestServer).getRequest
-//@   property C07, C11
+//@   property C07, C11, C16
 //@   results r, ok
 //@   requires reqsOK(rs)
 //@   ensures ok ==> r != nil
@@ -1323,7 +1323,7 @@ package sftp
 //@   modifies nothing
 
 //@ func (*RequestServer).nextRequest
-//@   property C07, C11
+//@   property C07, C11, C16
 //@   requires reqsOK(rs) && r != nil
 //@   ensures reqsOK(rs)
 //@   ensures result == r.handle
@@ -1335,7 +1335,7 @@ package sftp
 
 //@ func (*RequestServer).closeRequest
 //@   ensures rs.handleCount == old(rs.handleCount)
-//@   property C07, C11
+//@   property C07, C11, C16
 //@   requires reqsOK(rs)
 //@   ensures reqsOK(rs)
 //@   ensures !haskey(rs.openRequests, handle)
@@ -1547,7 +1547,7 @@ package sftp
 //@   update before call (packetSender).sendPacket#1: ghost.relOrder = in.orderID() + 1
 //@   assert before call copy#1: s.alloc != nil ==> ghost.relOrder == ghost.sentOrder
 // (with the allocator on, the pages of every answered request are released -- after its response was written)
-//@   property C02, C18, C15
+//@   property C02, C18, C15, C01
 //@   requires pmOK(s)
 //@   loop 1 invariant pmOK(s)
 //@   loop 1 assume queuesOK(s)
@@ -2142,6 +2142,7 @@ package sftp
 //@   modifies nothing
 
 //@ ghost var wfail bool
+//@ ghost var lsMode uint32
 //@ ghost var extL0 int
 //@ ghost var wtEOF bool
 //@ ghost var inRed bool
@@ -2177,3 +2178,12 @@ package sftp
 //@   ensures ok ==> data == c.ext[name]
 //@   modifies nothing
 // (an extension is reported iff the server advertised it, whatever its data string -- the empty string included)
+
+//@ func runLs
+//@   property C17
+//@   requires dirent != nil
+//@   update after call (os.FileInfo).Mode#1: ghost.lsMode = uint32(ret)
+//@   assert before call fromFileMode#1: uint32(arg0) == ghost.lsMode
+//@   assert before call sshfx.(FileMode).String#1: uint32(arg0) == fromFileMode(os.FileMode(ghost.lsMode))
+// (the permission column of the long name is rendered from the entry's complete mode word -- type, permission and
+//  setuid / setgid / sticky bits -- converted by the same fromFileMode as the structured attributes)
